@@ -221,19 +221,23 @@ def scotland(nc, seats, lines, tie, withdrawn, ties, sw=()):
     def breaktie(tied, lowest, what):                      # 49(2),(3) / 51(2)
         if len(tied) == 1:
             return tied[0]
+        # the most recent differing stage decides who is still in contention; when several share the extreme there the statute
+        # does not say whether older stages are consulted again among them or the lot decides at once: both are accepted,
+        # and among candidates level at every stage the lot decides
         live = list(tied)
+        first_shared = None
         for t in reversed(past):
             vals = [t[c] for c in live]
             if len(set(vals)) > 1:
                 ext = min(vals) if lowest else max(vals)
                 live = [c for c in live if t[c] == ext]
-                # statute silent when several share the extreme: any of them may be taken (adopted reading);
-                # the most recent differing stage decides who is still in contention
-                break
-        if len(live) == len(tied):
-            permitted = {min(tied, key=lambda c: g.tie[c])}     # equal at all stages: by lot
-        else:
-            permitted = set(live)
+                if first_shared is None:
+                    first_shared = list(live)
+                if len(live) == 1:
+                    break
+        permitted = {min(live, key=lambda c: g.tie[c])}
+        if first_shared is not None:
+            permitted.add(min(first_shared, key=lambda c: g.tie[c]))
         c = ties.resolve(tied, permitted, what)
         g.snap('tie', (frozenset(tied), c))
         return c
